@@ -138,6 +138,8 @@ class Gen:
             opts.append(("return", 1))
         if ctx == "compose" and f["w_override"] and self.objs_visible:
             opts.append(("override", f["w_override"]))
+        if ctx == "compose" and f.get("w_requireltl"):
+            opts.append(("requireltl", f["w_requireltl"]))
         opts = [(o, w) for o, w in opts if w > 0]
         op = opts[self.t.weighted([w for _, w in opts], "stmt")][0]
         if op == "ev":
@@ -202,6 +204,8 @@ class Gen:
             self.try_stack = stack
             # break/continue inside try blocks refer to the loop enclosing the statement
             return ["try", body, hs]
+        if op == "requireltl":
+            return ["requireltl", self.ltl_formula()]
         if op == "override":
             obj = self.t.choice(self.objs_visible, "ovr.obj")
             prop = self.t.choice(["foo", "bar"], "ovr.prop")
@@ -293,8 +297,38 @@ class Gen:
         }
         return prog
 
+    def ltl_general(self, depth, atoms):
+        """Formula of bounded depth over the given atom tables (0 = an atom)."""
+        t = self.t
+        if depth == 0 or t.chance(1, 4, "ltl.leaf"):
+            return ["atom", t.choice(atoms, "ltl.atom")]
+        op = t.choice(["always", "eventually", "next", "until", "not", "and", "or", "implies"], "ltl.op")
+        if op in ("always", "eventually", "next", "not"):
+            return [op, self.ltl_general(depth - 1, atoms)]
+        if op == "implies":
+            # the grammar does not admit a parenthesised temporal formula directly before
+            # `implies` (scenic_temporal_group lookahead), so the left operand is Boolean
+            return [op, self.ltl_boolean(depth - 1, atoms), self.ltl_general(depth - 1, atoms)]
+        return [op, self.ltl_general(depth - 1, atoms), self.ltl_general(depth - 1, atoms)]
+
+    def ltl_boolean(self, depth, atoms):
+        t = self.t
+        if depth == 0 or t.chance(1, 2, "ltlb.leaf"):
+            return ["atom", t.choice(atoms, "ltlb.atom")]
+        op = t.choice(["not", "and", "or"], "ltlb.op")
+        if op == "not":
+            return [op, self.ltl_boolean(depth - 1, atoms)]
+        return [op, self.ltl_boolean(depth - 1, atoms), self.ltl_boolean(depth - 1, atoms)]
+
     def ltl_formula(self):
         t = self.t
+        if self.f.get("ltl_general"):
+            if not getattr(self, "ltl_atoms", None):
+                self.ltl_atoms = [self.table("free") for _ in range(t.intrange(1, 3, "ltl.natoms"))]
+            while True:
+                f = self.ltl_general(self.f.get("ltl_depth", 3), self.ltl_atoms)
+                if f[0] != "atom":
+                    return f
         kind = t.draw(3, "ltl.kind")
         if kind == 0:
             return ["always", ["atom", self.table("guard")]]
